@@ -246,7 +246,7 @@ class Sink:
 # logging environments
 # --------------------------------------------------------------------------
 
-def make_env(rec, immutable=False, policy="default", extra_base=None, **kw):
+def make_env(rec, immutable=False, policy="default", extra_base=None, deny=(), **kw):
     """A (Immutable)SandboxedEnvironment whose gate methods log super()'s decision."""
     from jinja2 import sandbox
     from jinja2.runtime import Undefined
@@ -259,6 +259,13 @@ def make_env(rec, immutable=False, policy="default", extra_base=None, **kw):
             def is_safe_callable(self, obj):
                 return super().is_safe_callable(obj) and getattr(obj, "__name__", "") != "denied"
         base = DenyByName
+    elif policy == "denyobj":
+        denied = deny          # the caller may fill the list after the environment exists
+
+        class DenyByIdentity(base):      # an application policy: a deny list of objects
+            def is_safe_callable(self, obj):
+                return super().is_safe_callable(obj) and not any(obj is d for d in denied)
+        base = DenyByIdentity
 
     class LoggingEnv(base):
         def is_safe_attribute(self, obj, attr, value):
